@@ -8,6 +8,7 @@
 (* proof from EVERY installed epoch through all four entry points.  One cfg per *)
 (* retention setting (0, 1, 2, 9 > history).                                    *)
 EXTENDS Gateway, Json
+CONSTANT MaxEpoch
 VARIABLE st
 
 MC_Sets ==
@@ -16,12 +17,13 @@ MC_Sets ==
    c |-> [keys |-> <<1, 2, 3>>, weights |-> <<1, 1, 1>>, threshold |-> 2, nonce |-> 3],
    d |-> [keys |-> <<4>>,       weights |-> <<3>>,       threshold |-> 3, nonce |-> 4],
    e |-> [keys |-> <<1, 2>>,    weights |-> <<1, 1>>,    threshold |-> 2, nonce |-> 5],
-   f |-> [keys |-> <<3, 5>>,    weights |-> <<2, 2>>,    threshold |-> 3, nonce |-> 6]]
+   f |-> [keys |-> <<3, 5>>,    weights |-> <<2, 2>>,    threshold |-> 3, nonce |-> 6],
+   g |-> [keys |-> <<1, 5>>,    weights |-> <<1, 1>>,    threshold |-> 1, nonce |-> 7],
+   h |-> [keys |-> <<2, 4, 6>>, weights |-> <<1, 1, 1>>, threshold |-> 3, nonce |-> 8]]
 MC_Keys == [k1 |-> [chain |-> "c", id |-> "1"]]
 MC_Msgs == [m1 |-> [key |-> "k1", src |-> "sA", dest |-> "app1", ph |-> "p1"]]
 
-Order == <<"a", "b", "c", "d", "e", "f">>
-MaxEpoch == 6
+Order == <<"a", "b", "c", "d", "e", "f", "g", "h">>
 Full(s) == [set |-> s, sigs |-> [i \in 1..Len(Sets[s].keys) |-> "Valid"]]
 NextSet(s) == Order[s.epoch + 1]
 
